@@ -215,7 +215,7 @@ pub fn replay(v: &serde_json::Value) -> Vec<Violation> {
 
 fn configs(thorough: bool) -> Vec<Cfg> {
     let mut v = Vec::new();
-    let nmax = if thorough { 14 } else { 11 };
+    let nmax = if thorough { 16 } else { 11 };
     for scheme in ALL_SCHEMES {
         let kps: Vec<(u16, u16)> = match scheme {
             Scheme::NoCode => vec![(2, 0), (3, 0)],
@@ -252,7 +252,7 @@ fn configs(thorough: bool) -> Vec<Cfg> {
 pub fn run(thorough: bool) -> i32 {
     let mut rep = Report::new("C02", "fault_enumeration", if thorough { "thorough" } else { "quick" });
     let cfgs = configs(thorough);
-    let dup_nmax = if thorough { 9 } else { 7 };
+    let dup_nmax = if thorough { 10 } else { 7 };
     // work items: (config index, fdt mode, mode: 0 = subsets / 1 = multiplicities)
     let mut items = Vec::new();
     for (ci, _) in cfgs.iter().enumerate() {
